@@ -1189,7 +1189,8 @@ static void struct_initializer1(Token **rest, Token *tok, Initializer *init) {
 
 // struct-initializer2 = initializer ("," initializer)*
 static void struct_initializer2(Token **rest, Token *tok, Initializer *init, Member *mem) {
-  bool first = true;
+  // If we resume after a designated member, the next token is a comma.
+  bool first = (mem == skip_unnamed_bitfields(init->ty->members));
 
   for (; mem && !is_end(tok); mem = skip_unnamed_bitfields(mem->next)) {
     Token *start = tok;
